@@ -79,7 +79,13 @@ CACHE_LIMITS = [0, 1, 2, 3, 5, 1000]
 
 def draw_settings(rng, langs):
     s = {}
-    keys = rng.sample(["SKIP_TOKENS", "NORMALIZE", "DATE_ORDER", "PREFER_LOCALE_DATE_ORDER", "DEFAULT_LANGUAGES", "PARSERS", "CACHE_SIZE_LIMIT", "RELATIVE_BASE", "PREFER_DATES_FROM", "PREFER_DAY_OF_MONTH", "STRICT_PARSING", "TIMEZONE", "TO_TIMEZONE", "RETURN_AS_TIMEZONE_AWARE", "RETURN_TIME_AS_PERIOD", "REQUIRE_PARTS", "PREFER_MONTH_OF_YEAR"], rng.choice([1, 1, 2, 2, 3]))
+    anchor = ["SKIP_TOKENS", "NORMALIZE", "DATE_ORDER", "PREFER_LOCALE_DATE_ORDER", "DEFAULT_LANGUAGES", "PARSERS", "CACHE_SIZE_LIMIT"]
+    other = ["RELATIVE_BASE", "PREFER_DATES_FROM", "PREFER_DAY_OF_MONTH", "STRICT_PARSING", "TIMEZONE", "TO_TIMEZONE", "RETURN_AS_TIMEZONE_AWARE", "RETURN_TIME_AS_PERIOD", "REQUIRE_PARTS", "PREFER_MONTH_OF_YEAR"]
+    keys = []
+    for _ in range(rng.choice([1, 1, 2, 2, 3])):
+        k = rng.choice(anchor) if rng.random() < 0.6 else rng.choice(other)
+        if k not in keys:
+            keys.append(k)
     for k in keys:
         if k == "SKIP_TOKENS":
             s[k] = list(rng.choice(SKIPS))
@@ -149,6 +155,9 @@ def draw_string(rng, pools, L):
         s = str(rng.randrange(10 ** 9, 2 * 10 ** 9))
     else:
         s = "%d %s %d %02d:%02d" % (d, mname, y, rng.randrange(24), rng.randrange(60))
+    if rng.random() < 0.08:
+        # a date the locale accepts but the parser must reject (error paths inside a call)
+        s = rng.choice(["31 %s %d" % (rng.choice(P["months"][mm - 1]) if P["months"][mm - 1] else str(mm), y) for mm in (2, 4, 6, 9, 11)] + ["30/02/%d" % y, "31/04/%d" % y, "%s 99" % mname, "32 %s %d" % (mname, y)])
     if rng.random() < 0.15:
         s = rng.choice(["foo ", "bar ", "t ", "on ", "de "]) + s
     if rng.random() < 0.05 and P["skip"]:
@@ -209,6 +218,20 @@ def gen_history(rng, pools, tier):
             langs.append(L)
     nvar = rng.randrange(1, 5)
     variants = [None] + [draw_settings(rng, langs) for _ in range(nvar)]
+    focus = None
+    if rng.random() < 0.45:
+        # contrast mode: the variants differ in exactly one of the keys the shared state is (or
+        # should be) keyed by, the same strings recur under each variant, few languages
+        focus = rng.choice(["SKIP_TOKENS", "SKIP_TOKENS", "NORMALIZE", "DATE_ORDER", "PREFER_LOCALE_DATE_ORDER", "DEFAULT_LANGUAGES", "PARSERS", "CACHE_SIZE_LIMIT", "STRICT_PARSING", "PREFER_DATES_FROM"])
+        langs = langs[: rng.choice([1, 1, 2])]
+        base = {} if rng.random() < 0.6 else {k: v for k, v in draw_settings(rng, langs).items() if k != focus}
+        vals = {
+            "SKIP_TOKENS": [["foo"], ["bar"], ["t"], ["foo", "bar"], []], "NORMALIZE": [True, False], "DATE_ORDER": ORDERS, "PREFER_LOCALE_DATE_ORDER": [True, False],
+            "DEFAULT_LANGUAGES": [[l] for l in (langs + ["en", "fr"])[:3]], "PARSERS": PARSER_SETS, "CACHE_SIZE_LIMIT": CACHE_LIMITS, "STRICT_PARSING": [True, False],
+            "PREFER_DATES_FROM": ["past", "future", "current_period"],
+        }[focus]
+        picks = rng.sample(vals, min(len(vals), rng.choice([2, 2, 3])))
+        variants = [None if not base else dict(base)] + [dict(base, **{focus: copy.deepcopy(v)}) for v in picks]
     # cache-limit pressure: often give two variants different limits
     if rng.random() < 0.5 and len(variants) >= 3:
         a, b = rng.sample(range(1, len(variants)), 2)
@@ -222,6 +245,10 @@ def gen_history(rng, pools, tier):
 
     # a small pool of strings per history so that the same call recurs in different positions
     strings = [(L, draw_string(rng, pools, L)) for L in langs for _ in range(3)]
+    if focus == "SKIP_TOKENS":
+        strings = [(L, rng.choice(["foo ", "bar ", "foo bar "]) + s0 if not s0.startswith(("foo", "bar")) else s0) for L, s0 in strings]
+    elif focus in ("DATE_ORDER", "PREFER_LOCALE_DATE_ORDER"):
+        strings = strings[: len(langs)] + [(L, "%02d/%02d/%d" % (rng.randrange(1, 13), rng.randrange(1, 13), rng.randrange(2000, 2030))) for L in langs for _ in range(2)]
     ops = []
     slots = {}
     nslot = 0
